@@ -59,11 +59,19 @@ fn replay(path: &str, opts: &Opts) {
     let mut rep = Report::new("replay", "");
     let mut proto = vec![];
     let mut outs = vec![];
+    if lines.iter().any(|l| l.starts_with("st ")) {
+        // stateful family: the whole script runs on one store
+        let script: Vec<String> = lines.iter().filter(|l| l.starts_with("st ")).cloned().collect();
+        let outs2 = fam::store::exec_script(&script);
+        proto = script;
+        outs = outs2;
+    } else {
     for l in &lines {
         match fam::exec_line(l) {
             Some(o) => { proto.push(l.clone()); outs.push(o); }
             None => println!("  context: {}", l),
         }
+    }
     }
     rep.model_case(proto.clone(), outs.clone(), "replay");
     rep.run_model(&opts.driver);
